@@ -251,6 +251,8 @@ struct Ctx {
     temps: HashMap<(String, String), (String, String)>,
     /// (layout, final file) -> key text, all keys (for temp/final aliasing)
     all_finals: HashMap<(String, String), (String, String)>,
+    /// as_cache_key text -> constructor call, for calls with well-formed arguments
+    ctor_texts: HashMap<String, (String, String)>,
 }
 
 fn disk_cfg(root: &Path, layout: &str) -> Option<DiskCacheConfig> {
@@ -430,6 +432,101 @@ fn note_temp(s: &mut Session, ctx: &mut Ctx, layout: &str, tmp: &str, key: &str,
         if other != key {
             s.oracle_fail("tmp-aliases-final", &format!("the temporary file {tmp} of key {key:?} is the final file of key {other:?}"), &[oreq.clone(), req.to_string()]);
         }
+    }
+}
+
+
+// ---------------------------------------------------------------- constructors (op `ctor`)
+fn wf_name_s(s: &str) -> bool { !s.is_empty() && s.len() <= 64 && s.chars().all(|c| c.is_ascii_alphanumeric() || c == '_' || c == '-') }
+fn wf_dotted_s(s: &str) -> bool { !s.is_empty() && s.len() <= 64 && s.chars().all(|c| c.is_ascii_alphanumeric() || c == '_' || c == '-' || c == '.') }
+fn wf_endpoint_s(s: &str) -> bool { s.split('/').all(wf_name_s) }
+
+/// the four ways the library reads a key's text: inherent method, `Display`, the `CacheKey`
+/// trait (what `DiskCache` calls), and the same on a clone; all must agree
+fn texts<K: CacheKey + std::fmt::Display + Clone>(k: &K, inherent: &str) -> (String, bool) {
+    fn via_trait<K: CacheKey>(k: &K) -> String { k.as_cache_key().to_string() }
+    let t = via_trait(k);
+    let c = k.clone();
+    let same = t == inherent && k.to_string() == t && via_trait(&c) == t && c.to_string() == t;
+    (t, same)
+}
+
+/// one public constructor of key.rs, by name: (text, all readings agree, well-formed arguments)
+fn ctor_call(name: &str, a: &[&str]) -> Option<(String, bool, bool)> {
+    macro_rules! go {
+        ($k:expr, $wf:expr) => {{
+            let k = $k;
+            let inh = k.as_cache_key().to_string();
+            let (t, same) = texts(&k, &inh);
+            Some((t, same, $wf))
+        }};
+    }
+    match (name, a) {
+        ("RibbitKey::new", [e, r]) => { let (e, r) = (dec_tok(e)?, dec_tok(r)?); let wf = wf_endpoint_s(&e) && wf_name_s(&r); go!(RibbitKey::new(e, r), wf) }
+        ("RibbitKey::with_product", [e, r, p]) => { let (e, r, p) = (dec_tok(e)?, dec_tok(r)?, dec_tok(p)?); let wf = wf_endpoint_s(&e) && wf_name_s(&r) && wf_name_s(&p); go!(RibbitKey::with_product(e, r, p), wf) }
+        ("ConfigKey::new", [t, h]) => { let (t, h) = (dec_tok(t)?, dec_tok(h)?); let wf = wf_name_s(&t) && wf_name_s(&h); go!(ConfigKey::new(t, h), wf) }
+        ("BlteKey::new", [e]) => go!(BlteKey::new(ek(e)?), true),
+        ("BlteKey::with_block", [e, i]) => go!(BlteKey::with_block(ek(e)?, i.parse::<u32>().ok()?), true),
+        ("ContentCacheKey::new", [c]) => go!(ContentCacheKey::new(ck(c)?), true),
+        ("ArchiveIndexKey::new", [n, h]) => { let (n, h) = (dec_tok(n)?, dec_tok(h)?); let wf = wf_dotted_s(&n) && wf_name_s(&h); go!(ArchiveIndexKey::new(n, h), wf) }
+        ("ManifestKey::new", [t, c]) => { let t = dec_tok(t)?; let wf = wf_name_s(&t); go!(ManifestKey::new(t, ck(c)?), wf) }
+        ("ManifestKey::with_version", [t, c, v]) => { let (t, v) = (dec_tok(t)?, dec_tok(v)?); let wf = wf_name_s(&t) && wf_dotted_s(&v); go!(ManifestKey::with_version(t, ck(c)?, v), wf) }
+        ("RootFileKey::new_raw", [c]) => go!(RootFileKey::new_raw(ck(c)?), true),
+        ("RootFileKey::new_parsed", [c]) => go!(RootFileKey::new_parsed(ck(c)?), true),
+        ("RootFileKey::with_version", [c, p, v]) => go!(RootFileKey::with_version(ck(c)?, b01(p)?, v.parse::<u8>().ok()?), true),
+        ("EncodingFileKey::new_raw", [e]) => go!(EncodingFileKey::new_raw(ek(e)?), true),
+        ("EncodingFileKey::new_parsed", [e]) => go!(EncodingFileKey::new_parsed(ek(e)?), true),
+        ("EncodingFileKey::with_page", [e, pg, p]) => go!(EncodingFileKey::with_page(ek(e)?, pg.parse::<u32>().ok()?, b01(p)?), true),
+        ("ArchiveRangeKey::new", [id, st, len]) => { let id = dec_tok(id)?; let wf = wf_dotted_s(&id); go!(ArchiveRangeKey::new(id, st.parse::<u64>().ok()?, len.parse::<u32>().ok()?), wf) }
+        ("BlteBlockKey::new_raw", [c, i]) => go!(BlteBlockKey::new_raw(ck(c)?, i.parse::<u32>().ok()?), true),
+        ("BlteBlockKey::new_decompressed", [c, i]) => go!(BlteBlockKey::new_decompressed(ck(c)?, i.parse::<u32>().ok()?), true),
+        _ => None,
+    }
+}
+
+/// op `stale`: build a key, read its text (fills the memo), assign new values to its PUBLIC
+/// fields, read the text again; returns (text before, text after the assignment, text of a key
+/// freshly constructed with the new values, `==` between the two)
+fn stale_call(kind: &str, a: &[&str]) -> Option<(String, String, String, bool)> {
+    match (kind, a) {
+        ("ribbit", [e1, r1, e2, r2]) => {
+            let (e1, r1, e2, r2) = (dec_tok(e1)?, dec_tok(r1)?, dec_tok(e2)?, dec_tok(r2)?);
+            let mut k = RibbitKey::new(e1, r1);
+            let before = k.as_cache_key().to_string();
+            k.endpoint = e2.clone();
+            k.region = r2.clone();
+            let fresh = RibbitKey::new(e2, r2);
+            Some((before, k.as_cache_key().to_string(), fresh.as_cache_key().to_string(), k == fresh))
+        }
+        ("config", [t1, h1, t2, h2]) => {
+            let (t1, h1, t2, h2) = (dec_tok(t1)?, dec_tok(h1)?, dec_tok(t2)?, dec_tok(h2)?);
+            let mut k = ConfigKey::new(t1, h1);
+            let before = k.as_cache_key().to_string();
+            k.config_type = t2.clone();
+            k.hash = h2.clone();
+            let fresh = ConfigKey::new(t2, h2);
+            Some((before, k.as_cache_key().to_string(), fresh.as_cache_key().to_string(), k == fresh))
+        }
+        ("blte", [e1, e2, i2]) => {
+            let mut k = BlteKey::new(ek(e1)?);
+            let before = k.as_cache_key().to_string();
+            let i2 = opt_num::<u32>(i2)?;
+            k.encoding_key = ek(e2)?;
+            k.block_index = i2;
+            let fresh = match i2 { Some(i) => BlteKey::with_block(ek(e2)?, i), None => BlteKey::new(ek(e2)?) };
+            Some((before, k.as_cache_key().to_string(), fresh.as_cache_key().to_string(), k == fresh))
+        }
+        ("archive", [id1, s1, l1, id2, s2, l2]) => {
+            let (id1, id2) = (dec_tok(id1)?, dec_tok(id2)?);
+            let mut k = ArchiveRangeKey::new(id1, s1.parse::<u64>().ok()?, l1.parse::<u32>().ok()?);
+            let before = k.as_cache_key().to_string();
+            k.archive_id = id2.clone();
+            k.start_offset = s2.parse::<u64>().ok()?;
+            k.length = l2.parse::<u32>().ok()?;
+            let fresh = ArchiveRangeKey::new(id2, s2.parse::<u64>().ok()?, l2.parse::<u32>().ok()?);
+            Some((before, k.as_cache_key().to_string(), fresh.as_cache_key().to_string(), k == fresh))
+        }
+        _ => None,
     }
 }
 
@@ -763,6 +860,118 @@ fn run_line(s: &mut Session, ctx: &mut Ctx, req: &str) -> Option<String> {
                 }
             }
         }
+        ["ctor", name, args @ ..] => {
+            let r = catch(AssertUnwindSafe(|| ctor_call(name, args)));
+            match r {
+                Err(_) => { s.oracle_fail("panic-ctor", &format!("{name} / as_cache_key panicked"), &[req.to_string()]); Some("panic".into()) }
+                Ok(None) => None,
+                Ok(Some((text, same, wf))) => {
+                    if !same {
+                        s.oracle_fail("key-text-readings-differ", &format!("{name}: as_cache_key, Display, CacheKey::as_cache_key and the clone's do not all print {text:?}"), &[req.to_string()]);
+                    }
+                    if wf {
+                        let ident = format!("{name}({})", args.join(","));
+                        if let Some((prev, preq)) = ctx.ctor_texts.get(&text) {
+                            if *prev != ident {
+                                s.oracle_fail("collide-ctor-wf", &format!("constructor calls {prev} and {ident} with well-formed arguments print the same key text {text:?}"), &[preq.clone(), req.to_string()]);
+                            }
+                        } else {
+                            ctx.ctor_texts.insert(text.clone(), (ident, req.to_string()));
+                        }
+                    }
+                    s.tally(&format!("ctor.{name}.{}", if wf { "wf" } else { "hostile" }));
+                    Some(format!("key={} same={}", enc(&text), u8::from(same)))
+                }
+            }
+        }
+        ["stale", kind, args @ ..] => {
+            let (before, after, fresh, eq) = stale_call(kind, args)?;
+            if eq && after != fresh {
+                s.oracle_fail("stale-key-text-after-field-write", &format!("{kind} key: after as_cache_key() and an assignment to its public fields the key equals a freshly constructed one (==) but prints {after:?} instead of {fresh:?}: the two are stored in different files, and it shares the file of the key it was before"), &[req.to_string()]);
+            }
+            s.tally(if after == fresh { "stale.same" } else { "stale.stale" });
+            Some(format!("before={} after={} fresh={} eq={}", enc(&before), enc(&after), enc(&fresh), u8::from(eq)))
+        }
+        ["pkey", p, e] => {
+            let (p, e) = (dec_tok(p)?, dec_tok(e)?);
+            let t = cascette_protocol::format_cache_key(&p, &e);
+            Some(format!("key={}", enc(&t)))
+        }
+        // cold remove: a DiskCache instance that has not indexed the key deletes get_file_path(key)
+        ["rdel", layout, k] => {
+            let key = dec_tok(k)?;
+            disk_cfg(Path::new("/x"), layout)?;
+            if unsafe_args(&[&key], &[]) { return Some("unsafe-skip".into()); }
+            let sb = Sandbox::new();
+            std::fs::write(sb.parent.join("d1").join("secret"), b"s").unwrap();
+            std::fs::write(sb.root.join("inside"), b"i").unwrap();
+            let cfg = disk_cfg(&sb.root, layout)?;
+            let real = sb.real(&key);
+            let before = sb.snap();
+            let r = catch(AssertUnwindSafe(|| {
+                let cache: DiskCache<RawKey> = DiskCache::new(cfg).expect("disk cache");
+                ctx.rt.block_on(cache.remove(&RawKey(real)))
+            }));
+            let after = sb.snap();
+            let d = diff(&sb, &before, &after);
+            // hashed layouts create their directories inside the root on the way; only removals count
+            let gone_outside: Vec<&String> = d.removed.iter().filter(|p| !(p.as_str() == "/S/d1/d2/cache" || p.starts_with("/S/d1/d2/cache/"))).collect();
+            if !gone_outside.is_empty() {
+                s.oracle_fail(&format!("delete-escape-disk-{}", shape(&[&key])), &format!("DiskCache::remove({key:?}) deleted {gone_outside:?}, outside the cache directory /S/d1/d2/cache"), &[req.to_string()]);
+            }
+            let created_outside: Vec<&String> = d.new_files.iter().chain(d.new_dirs.iter()).filter(|p| !p.starts_with("/S/d1/d2/cache/")).collect();
+            if !created_outside.is_empty() {
+                s.oracle_fail(&format!("escape-disk-{}", shape(&[&key])), &format!("DiskCache::remove({key:?}) created {created_outside:?} outside the cache directory"), &[req.to_string()]);
+            }
+            match r {
+                Err(_) => { s.oracle_fail("panic-disk", &format!("DiskCache::remove panicked for key {key:?}"), &[req.to_string()]); Some("panic".into()) }
+                Ok(Err(_)) => Some("err".into()),
+                Ok(Ok(b)) => {
+                    s.tally(if b { "rdel.removed" } else { "rdel.nothing" });
+                    let mut gone = d.removed.clone();
+                    gone.sort();
+                    Some(format!("{} gone={}", if b { "removed" } else { "nothing" }, if gone.is_empty() { "-".to_string() } else { gone.iter().map(|x| enc(x)).collect::<Vec<_>>().join(",") }))
+                }
+            }
+        }
+        ["fmt", "seg", i] => {
+            let i: u16 = i.parse().ok()?;
+            let p = cascette_client_storage::storage::segment::segment_data_path(Path::new("/S/d1/d2/cache"), i);
+            if !p.starts_with("/S/d1/d2/cache") || p.components().count() != 6 { s.oracle_fail("escape-fmt-seg", &format!("{}", p.display()), &[req.to_string()]); }
+            Some(enc(&p.to_string_lossy()))
+        }
+        // the temporary file of IndexManager::save_index, observed by occupying a name with a
+        // directory before the save: the save fails iff that name is the temporary or the final one
+        ["fmt", "idxtmp", k, kind] => {
+            let key = ek(k)?;
+            let run = |block: Option<&str>| -> Option<(bool, Vec<String>, Vec<String>)> {
+                let sb = Sandbox::new();
+                if let Some(name) = block {
+                    std::fs::create_dir(sb.root.join(name)).ok()?;
+                    std::fs::write(sb.root.join(name).join("x"), b"x").ok()?;
+                }
+                let before = sb.snap();
+                let r = catch(AssertUnwindSafe(|| {
+                    let mut im = cascette_client_storage::index::IndexManager::new(&sb.root);
+                    im.add_entry(&key, 0, 0, 10).ok()?;
+                    Some(im.save_all().is_ok())
+                }));
+                let after = sb.snap();
+                let d = diff(&sb, &before, &after);
+                match r { Ok(Some(ok)) => Some((ok, d.new_files.clone(), d.outside.clone())), _ => None }
+            };
+            // learn the final name from an unobstructed save
+            let (ok0, files0, _) = run(None)?;
+            if !ok0 || files0.len() != 1 { return Some("err:setup".into()); }
+            let fin = files0[0].rsplit('/').next()?.to_string();
+            let stem = fin.rsplit_once('.').map(|x| x.0.to_string()).unwrap_or(fin.clone());
+            let blocked = match *kind { "stem.tmp" => format!("{stem}.tmp"), "name.tmp" => format!("{fin}.tmp"), "tmp" => "tmp".to_string(), "name" => fin.clone(), "stem" => stem.clone(), "other.tmp" => format!("{}2.tmp", &stem[..stem.len() - 1]), _ => return None };
+            let (ok, files, outside) = run(Some(&blocked))?;
+            if !outside.is_empty() { s.oracle_fail("escape-idx-tmp", &format!("{outside:?}"), &[req.to_string()]); }
+            let left: Vec<&String> = files.iter().filter(|p| !p.ends_with(&format!("/{fin}"))).collect();
+            if !left.is_empty() { s.oracle_fail("idx-tmp-left-behind", &format!("save_all left {left:?}"), &[req.to_string()]); }
+            Some(format!("{} blocked={}", if ok { "ok" } else { "err" }, enc(&blocked)))
+        }
         ["inst", n, _data, _indices, _std] => {
             let name = dec_tok(n)?;
             if unsafe_args(&[&name], &[]) { return Some("unsafe-skip".into()); }
@@ -916,9 +1125,9 @@ fn main() {
     let args = Args::parse();
     quiet_panics();
     let mut s = Session::new(&args.out);
-    s.rule = "every request runs the real API in a fresh scratch parent /S with root /S/d1/d2/cache; inputs: exhaustive raw keys over the segment alphabet {'..','.','','a','b.x'} up to 4 segments (relative, trailing '/', absolute under /S), seeded hostile strings (.., ., empty, absolute, 255/256-byte names, NUL, non-ASCII, ':' , '.tmp' endings), all ten typed keys with well-formed and hostile fields on flat and hashed layouts, ProtocolCache keys, query endpoints, CDN paths/hosts with content keys of every length 0..=32 through every CdnClient entry point, installation names, fixed-width formatters; non-trivial = the call reached the file system or the URL/key builder (not unsafe-skip / n/a / bad-op); distinct = canonical request text".into();
+    s.rule = "every request runs the real API in a fresh scratch parent /S with root /S/d1/d2/cache; inputs: exhaustive raw keys over the segment alphabet {'..','.','','a','b.x'} up to 4 segments (relative, trailing '/', absolute under /S), seeded hostile strings (.., ., empty, absolute, 255/256-byte names, NUL, non-ASCII, ':' , '.tmp' endings), all ten typed keys with well-formed and hostile fields on flat and hashed layouts, each of the 18 public key constructors by name, assignments to public key fields after the text was read, format_cache_key, cold DiskCache::remove with planted files inside and outside, RangeDownloader::download_archive_content with archive names of every shape, segment file names, the index temporary name, ProtocolCache keys, query endpoints, CDN paths/hosts with content keys of every length 0..=32 through every CdnClient entry point, installation names, fixed-width formatters; non-trivial = the call reached the file system or the URL/key builder (not unsafe-skip / n/a / bad-op); distinct = canonical request text".into();
     let rt = tokio::runtime::Builder::new_multi_thread().worker_threads(2).enable_all().build().expect("rt");
-    let mut ctx = Ctx { rt, srv: start_server(), finals: HashMap::new(), temps: HashMap::new(), all_finals: HashMap::new() };
+    let mut ctx = Ctx { rt, srv: start_server(), finals: HashMap::new(), temps: HashMap::new(), all_finals: HashMap::new(), ctor_texts: HashMap::new() };
     let mut rng = Rng::new(args.seed);
 
     if let Some(p) = &args.replay {
@@ -1105,8 +1314,123 @@ fn main() {
     for _ in 0..(if thorough { 64 } else { 24 }) {
         emit(&mut s, &mut ctx, format!("fmt idx {}", hexkey(&mut rng)));
     }
+    // 9. every public constructor of key.rs by name (K: Model/KeysExt.Ctor; O: the readings of the
+    // key text agree, well-formed calls never share a text)
+    {
+        let z = "00".repeat(16);
+        let n_ctor = if thorough { 6000 } else { 1200 };
+        for i in 0..n_ctor {
+            let hostile = i % 3 == 0;
+            let st = |rng: &mut Rng, wf: fn(&mut Rng) -> String| enc(&(if hostile && rng.chance(1, 2) { hostile_string(rng) } else { wf(rng) }));
+            let line = match rng.below(18) {
+                0 => format!("ctor RibbitKey::new {} {}", st(&mut rng, wf_endpoint), st(&mut rng, wf_name)),
+                1 => format!("ctor RibbitKey::with_product {} {} {}", st(&mut rng, wf_endpoint), st(&mut rng, wf_name), st(&mut rng, wf_name)),
+                2 => format!("ctor ConfigKey::new {} {}", st(&mut rng, wf_name), st(&mut rng, |r| hexkey(r))),
+                3 => format!("ctor BlteKey::new {}", hexkey(&mut rng)),
+                4 => format!("ctor BlteKey::with_block {} {}", hexkey(&mut rng), num(&mut rng, u32::MAX as u64)),
+                5 => format!("ctor ContentCacheKey::new {}", hexkey(&mut rng)),
+                6 => format!("ctor ArchiveIndexKey::new {} {}", st(&mut rng, wf_dotted), st(&mut rng, |r| hexkey(r))),
+                7 => format!("ctor ManifestKey::new {} {}", st(&mut rng, wf_name), hexkey(&mut rng)),
+                8 => format!("ctor ManifestKey::with_version {} {} {}", st(&mut rng, wf_name), hexkey(&mut rng), st(&mut rng, wf_dotted)),
+                9 => format!("ctor RootFileKey::new_raw {}", hexkey(&mut rng)),
+                10 => format!("ctor RootFileKey::new_parsed {}", hexkey(&mut rng)),
+                11 => format!("ctor RootFileKey::with_version {} {} {}", hexkey(&mut rng), rng.below(2), num(&mut rng, 255)),
+                12 => format!("ctor EncodingFileKey::new_raw {}", hexkey(&mut rng)),
+                13 => format!("ctor EncodingFileKey::new_parsed {}", hexkey(&mut rng)),
+                14 => format!("ctor EncodingFileKey::with_page {} {} {}", hexkey(&mut rng), num(&mut rng, u32::MAX as u64), rng.below(2)),
+                15 => format!("ctor ArchiveRangeKey::new {} {} {}", st(&mut rng, wf_dotted), num(&mut rng, u64::MAX), num(&mut rng, u32::MAX as u64)),
+                16 => format!("ctor BlteBlockKey::new_raw {} {}", hexkey(&mut rng), num(&mut rng, u32::MAX as u64)),
+                _ => format!("ctor BlteBlockKey::new_decompressed {} {}", hexkey(&mut rng), num(&mut rng, u32::MAX as u64)),
+            };
+            emit(&mut s, &mut ctx, line);
+        }
+        // separator boundaries at constructor level (same hash everywhere, so only the constructor
+        // and the small fields tell the texts apart) and the ':' witness
+        let fam: Vec<String> = vec![
+            format!("RibbitKey::new {} {}", enc("wow"), enc("us")), format!("RibbitKey::with_product {} {} {}", enc("w"), enc("us"), enc("wo")),
+            format!("RibbitKey::with_product {} {} {}", enc("wow"), enc("us"), enc("wow")), format!("RibbitKey::new {} {}", enc("wow/wow"), enc("us")),
+            format!("RibbitKey::new {} {}", enc("b:c"), enc("a")), format!("RibbitKey::with_product {} {} {}", enc("c"), enc("a"), enc("b")),
+            format!("ConfigKey::new {} {}", enc("ab"), enc("c")), format!("ConfigKey::new {} {}", enc("a"), enc("bc")),
+            format!("BlteKey::new {z}"), format!("BlteKey::with_block {z} 0"), format!("BlteKey::with_block {z} 1"), format!("BlteKey::with_block {z} 10"),
+            format!("BlteBlockKey::new_raw {z} 0"), format!("BlteBlockKey::new_decompressed {z} 0"), format!("BlteBlockKey::new_raw {z} 10"),
+            format!("ContentCacheKey::new {z}"),
+            format!("ManifestKey::new {} {z}", enc("root")), format!("ManifestKey::with_version {} {z} {}", enc("root"), enc("1")), format!("ManifestKey::with_version {} {z} {}", enc("root"), enc("v1")),
+            format!("RootFileKey::new_raw {z}"), format!("RootFileKey::new_parsed {z}"), format!("RootFileKey::with_version {z} 0 0"), format!("RootFileKey::with_version {z} 1 0"), format!("RootFileKey::with_version {z} 0 255"),
+            format!("EncodingFileKey::new_raw {z}"), format!("EncodingFileKey::new_parsed {z}"), format!("EncodingFileKey::with_page {z} 0 0"), format!("EncodingFileKey::with_page {z} 0 1"), format!("EncodingFileKey::with_page {z} 4294967295 1"),
+            format!("ArchiveIndexKey::new {} {}", enc("data.0"), enc("00")), format!("ArchiveIndexKey::new {} {}", enc("data."), enc("000")),
+            format!("ArchiveRangeKey::new {} 1 23", enc("a")), format!("ArchiveRangeKey::new {} 12 3", enc("a")), format!("ArchiveRangeKey::new {} 18446744073709551615 4294967295", enc("a")),
+        ];
+        for f in fam {
+            emit(&mut s, &mut ctx, format!("ctor {f}"));
+        }
+        // the memo behind as_cache_key vs assignments to the public fields
+        for (a, b) in [(("a", "us"), ("a", "eu")), (("a", "us"), ("a", "us")), (("v1/x", "us"), ("v1/y", "us")), (("../x", "us"), ("x", "us"))] {
+            emit(&mut s, &mut ctx, format!("stale ribbit {} {} {} {}", enc(a.0), enc(a.1), enc(b.0), enc(b.1)));
+        }
+        emit(&mut s, &mut ctx, format!("stale config {} {} {} {}", enc("buildconfig"), enc("aa"), enc("cdnconfig"), enc("aa")));
+        emit(&mut s, &mut ctx, format!("stale config {} {} {} {}", enc("buildconfig"), enc("aa"), enc("buildconfig"), enc("aa")));
+        emit(&mut s, &mut ctx, format!("stale blte {z} {} ~", "ff".repeat(16)));
+        emit(&mut s, &mut ctx, format!("stale blte {z} {z} 3"));
+        emit(&mut s, &mut ctx, format!("stale blte {z} {z} ~"));
+        emit(&mut s, &mut ctx, format!("stale archive {} 0 1 {} 0 2", enc("data.000"), enc("data.000")));
+        emit(&mut s, &mut ctx, format!("stale archive {} 5 1 {} 5 1", enc("data.000"), enc("data.000")));
+        for _ in 0..(if thorough { 300 } else { 40 }) {
+            let l = match rng.below(3) {
+                0 => format!("stale ribbit {} {} {} {}", enc(&wf_endpoint(&mut rng)), enc(&wf_name(&mut rng)), enc(&wf_endpoint(&mut rng)), enc(&wf_name(&mut rng))),
+                1 => format!("stale config {} {} {} {}", enc(&wf_name(&mut rng)), enc(&hexkey(&mut rng)), enc(&wf_name(&mut rng)), enc(&hexkey(&mut rng))),
+                _ => format!("stale archive {} {} {} {} {} {}", enc(&wf_dotted(&mut rng)), num(&mut rng, u64::MAX), num(&mut rng, u32::MAX as u64), enc(&wf_dotted(&mut rng)), num(&mut rng, u64::MAX), num(&mut rng, u32::MAX as u64)),
+            };
+            emit(&mut s, &mut ctx, l);
+        }
+        // cascette_protocol::format_cache_key
+        for (p, e) in [("ribbit", "v1/summary"), ("a:b", "c"), ("a", "b:c"), ("", ""), ("", ":"), ("é", "中"), ("..", ".."), ("/", "/")] {
+            emit(&mut s, &mut ctx, format!("pkey {} {}", enc(p), enc(e)));
+        }
+        for _ in 0..(if thorough { 400 } else { 60 }) {
+            let (p, e) = (hostile_string(&mut rng), hostile_string(&mut rng));
+            emit(&mut s, &mut ctx, format!("pkey {} {}", enc(&p), enc(&e)));
+        }
+    }
+    // 10. cold remove
+    for k in ["inside", "../../secret", "../../../d1/secret", "/S/d1/secret", "x/../../../secret", "./inside", "inside/", "../cache/inside", "a/../inside", "", ".", "nothing", "/S/d1/d2/cache/inside"] {
+        for l in ["flat", "h2"] {
+            emit(&mut s, &mut ctx, format!("rdel {l} {}", enc(k)));
+        }
+    }
+    for _ in 0..(if thorough { 1500 } else { 200 }) {
+        let k = if rng.chance(1, 3) { (*rng.pick(&["inside", "../../secret", "secret", "../inside", "d1/secret", "..", "cache/inside"])).to_string() } else { hostile_string(&mut rng) };
+        let k = if rng.chance(1, 4) { format!("{}/{k}", *rng.pick(&["..", ".", "a", "../..", "/S/d1", "/S/d1/d2/cache"])) } else { k };
+        let l = layouts(&mut rng);
+        emit(&mut s, &mut ctx, format!("rdel {l} {}", enc(&k)));
+    }
+    // 11. RangeDownloader::download_archive_content: archive names of every length 0..=8 and shape
+    {
+        let dead = enc("127.0.0.1:1");
+        let mut names: Vec<String> = vec!["", "a", "ab", "abc", "abcd", "abcde", "0123456789abcdef0123456789abcdef", "ABCDEF01", "../..", "....", "ab/../../x", "aé", "éé", "aéb", "abcé", "ab cd", "abcg", "/abc", "0000", "zzzz", "ab/d", "abc/", "中中", "a中b"].into_iter().map(String::from).collect();
+        for _ in 0..(if thorough { 200 } else { 40 }) {
+            let n = rng.range(0, 17) as usize;
+            names.push(if rng.chance(1, 2) { hex(&rng.bytes(n)).replace('-', "") } else { hostile_string(&mut rng) });
+        }
+        for (i, n) in names.iter().enumerate() {
+            let pp = match i % 3 { 0 => "~".to_string(), 1 => enc("wow"), _ => enc("tpr/configs/data") };
+            let path = if i % 7 == 6 { hostile_string(&mut rng) } else { "tpr/wow".to_string() };
+            let cu = if cu_ok(&path) { 1 } else { 0 };
+            emit(&mut s, &mut ctx, format!("arange {dead} {} {pp} {} {} {} cu={cu}", enc(&path), enc(n), rng.below(1000), 1 + rng.below(1000)));
+        }
+    }
+    // 12. segment file names, the index temporary file
+    for i in [0u32, 1, 9, 10, 99, 100, 999, 1000, 1023, 9999, 10000, 65535] {
+        emit(&mut s, &mut ctx, format!("fmt seg {i}"));
+    }
+    for _ in 0..(if thorough { 300 } else { 40 }) {
+        emit(&mut s, &mut ctx, format!("fmt seg {}", rng.below(65536)));
+    }
+    for i in 0..(if thorough { 48 } else { 12 }) {
+        let kind = ["stem.tmp", "name.tmp", "tmp", "name", "stem", "other.tmp"][i % 6];
+        emit(&mut s, &mut ctx, format!("fmt idxtmp {} {kind}", hexkey(&mut rng)));
+    }
     // a few malformed requests
-    for l in ["raw flat zz", "raw deep 61", "typed flat nokind 61", "cdn nope ~ @ 61 data 00 cu=1", "hello", "fmt lru x"] {
+    for l in ["raw flat zz", "raw deep 61", "typed flat nokind 61", "cdn nope ~ @ 61 data 00 cu=1", "hello", "fmt lru x", "ctor RibbitKey::nope 61", "ctor BlteKey::new zz", "stale nokind 61", "fmt seg 65536", "rdel deep 61", "arange 61 61 ~ 61 0 x cu=0"] {
         emit(&mut s, &mut ctx, l.to_string());
     }
     s.extra.insert("wf_final_files".into(), serde_json::json!(ctx.finals.len()));
